@@ -85,7 +85,9 @@ static std::vector<hwloc_obj_t> level_objs_inside(hwloc_topology_t t, const Leve
   std::vector<hwloc_obj_t> v; hwloc_obj_t o = NULL;
   while ((o = hwloc_get_next_obj_by_depth(t, lv.depth, o)) != NULL) {
     if (hwloc_bitmap_iszero(o->cpuset) && hwloc_bitmap_iszero(o->nodeset)) continue;
-    if (parent && !(hwloc_bitmap_isincluded(o->cpuset, parent->cpuset) && !hwloc_bitmap_iszero(o->cpuset))) continue;   // "relative to the scope of the parent object"
+    if (parent) {   // "relative to the scope of the parent object": the object's locality lies inside the parent's; a CPU-less object (NUMA node left without CPUs by a restrict) is located by its nodeset
+      if (!hwloc_bitmap_iszero(o->cpuset)) { if (!hwloc_bitmap_isincluded(o->cpuset, parent->cpuset)) continue; }
+      else if (!hwloc_bitmap_isincluded(o->nodeset, parent->nodeset)) continue; }
     v.push_back(o);
   }
   return v;
@@ -129,7 +131,10 @@ static std::string gen_object_token(Draw &d, hwloc_topology_t t, hwloc_bitmap_t 
   size_t i0 = d.raw() % lv.size(); int nest = lv[i0].depth >= 0 ? (d.chance(1, 2) ? d.range(1, 2) : 0) : 0;
   std::vector<hwloc_obj_t> cur = {NULL}; std::string text; size_t li = i0;
   for (int k = 0; k <= nest; k++) {
-    if (k > 0) { std::vector<size_t> deeper; for (size_t j = 0; j < lv.size(); j++) if (lv[j].depth > lv[li].depth) deeper.push_back(j); if (deeper.empty()) break; li = deeper[d.raw() % deeper.size()]; text += "."; hier = true; }
+    if (k > 0) { std::vector<size_t> deeper; for (size_t j = 0; j < lv.size(); j++) { if (lv[j].depth > lv[li].depth) { bool cpuless = false; for (hwloc_obj_t o = NULL; (o = hwloc_get_next_obj_by_depth(t, lv[j].depth, o));) if (hwloc_bitmap_iszero(o->cpuset) && !hwloc_bitmap_iszero(o->nodeset)) cpuless = true; if (!cpuless) deeper.push_back(j); }   // (CPU-less normal objects carry inherited nodes: "inside" is then ambiguous, pitfall 9.34)
+        // NUMA nodes below a normal level: when every node with CPUs lies inside one object of that level or misses it entirely (nodes attached at or below that level); CPU-less nodes are located by their nodeset
+        else if (lv[j].depth == HWLOC_TYPE_DEPTH_NUMANODE && lv[li].depth >= 0) { bool clean = true; for (hwloc_obj_t n = NULL; (n = hwloc_get_next_obj_by_depth(t, HWLOC_TYPE_DEPTH_NUMANODE, n));) for (hwloc_obj_t p = NULL; (p = hwloc_get_next_obj_by_depth(t, lv[li].depth, p));) if (!hwloc_bitmap_iszero(n->cpuset) && hwloc_bitmap_intersects(n->cpuset, p->cpuset) && !hwloc_bitmap_isincluded(n->cpuset, p->cpuset)) clean = false; if (clean && k == nest) deeper.push_back(j); } }
+      if (deeper.empty()) break; li = deeper[d.raw() % deeper.size()]; text += "."; hier = true; }
     // the range is generated against the narrowest scope so that every index exists under every parent (non-existing indexes are skipped by the tool with a message: malformed class)
     unsigned width = UINT_MAX; for (auto p : cur) { unsigned w = (unsigned)level_objs_inside(t, lv[li], p).size(); if (w < width) width = w; }
     if (width == 0 || width == UINT_MAX) { if (k == 0) width = 1; else { text.pop_back(); if (k == 1) hier = false; break; } }
@@ -147,6 +152,10 @@ static const char *fmt_name[] = {"hwloc", "list", "taskset"};
 
 static void scenario_calc(Case &c, Draw &d) {
   Input in = gen_input(c, d); hwloc_topology_t t = load_like(c, in, -1, false, HWLOC_TOPOLOGY_FLAG_IMPORT_SUPPORT);
+  // one command line in four restricts the topology first (default restrict flags: NUMA nodes that lose their CPUs stay, CPU-less)
+  if (d.chance(1, 4)) { hwloc_bitmap_t rs = gen_subset(d, hwloc_topology_get_topology_cpuset(t), 2, 3); if (hwloc_bitmap_iszero(rs)) hwloc_bitmap_set(rs, hwloc_bitmap_first(hwloc_topology_get_topology_cpuset(t))); std::string rtxt = fmt_set(0, rs);
+    CHECK(c, hwloc_topology_restrict(t, rs, 0) == 0, "harness", "the library cannot restrict to %s", rtxt.c_str()); in.args.push_back("--restrict"); in.args.push_back(rtxt); c.descf(" --restrict %s", rtxt.c_str()); c.cls("calc:restricted-topology"); hwloc_bitmap_free(rs);
+    for (hwloc_obj_t n = NULL; (n = hwloc_get_next_obj_by_type(t, HWLOC_OBJ_NUMANODE, n));) if (hwloc_bitmap_iszero(n->cpuset)) { c.cls("calc:cpuless-numa-node"); break; } }
   bool nodesets = d.chance(1, 5); int cif = d.chance(1, 3) ? d.range(0, 2) : 0; int cof = d.chance(1, 2) ? d.range(0, 2) : 0;
   hwloc_const_bitmap_t universe = nodesets ? hwloc_topology_get_topology_nodeset(t) : hwloc_topology_get_topology_cpuset(t);
   hwloc_bitmap_t E = hwloc_bitmap_alloc(); std::vector<std::string> toks; bool anyhier = false; size_t ntok = c.ops.empty() ? 1 : c.ops.size();
@@ -226,8 +235,13 @@ static void scenario_calc(Case &c, Draw &d) {
 
 // ---------------------------------------------------------------------------------------------------------------------------------
 static void scenario_lstopo(Case &c, Draw &d) {
-  Input in = gen_input(c, d); hwloc_topology_t t = load_like(c, in, HWLOC_TYPE_FILTER_KEEP_IMPORTANT, false, HWLOC_TOPOLOGY_FLAG_IMPORT_SUPPORT);
-  if (d.chance(1, 2)) {
+  Input in = gen_input(c, d); bool longsyn = false;
+  // one case in five: a machine whose synthetic description is long (hundreds of PUs with OS indexes that can only be listed one by one): the
+  // lengths straddle 1024 characters (lstopo formats into a fixed buffer first) and reach a few thousand
+  if (d.chance(1, 5)) { unsigned a = d.range(1, 3), n = d.chance(1, 6) ? d.range(400, 700) : d.range(170, 340); n = (n / a) * a; std::vector<unsigned> p(n); for (unsigned i = 0; i < n; i++) p[i] = i; for (unsigned i = n; i > 1; i--) std::swap(p[i - 1], p[d.raw() % i]);
+    std::string sdesc = strf("pack:%u pu:%u(indexes=", a, n / a); for (unsigned i = 0; i < n; i++) sdesc += (i ? "," : "") + std::to_string(p[i]); sdesc += ")"; in.args = {"-i", sdesc}; in.text = strf("synthetic=\"pack:%u pu:%u(indexes=<random permutation of 0..%u>)\"", a, n / a, n - 1); c.desc(" replaced by " + in.text); longsyn = true; }
+  hwloc_topology_t t = load_like(c, in, HWLOC_TYPE_FILTER_KEEP_IMPORTANT, false, HWLOC_TOPOLOGY_FLAG_IMPORT_SUPPORT);
+  if (!longsyn && d.chance(1, 2)) {
     bool v2 = d.chance(1, 4); std::vector<std::string> a = in.args; a.push_back("--of"); a.push_back("xml"); if (v2) { a.push_back("--export-xml-flags"); a.push_back("v2"); }
     c.descf("\n lstopo-no-graphics --of xml%s", v2 ? " --export-xml-flags v2" : ""); Run r = run_tool(c, "lstopo-no-graphics", a); CHECK(c, r.rc == 0, "lstopo_exit", "lstopo exited with %d: %s", r.rc, r.err.substr(0, 300).c_str());
     std::string lib = export_xml(t, v2 ? HWLOC_TOPOLOGY_EXPORT_XML_FLAG_V2 : 0);
@@ -246,9 +260,12 @@ static void scenario_lstopo(Case &c, Draw &d) {
     unsigned long libflags = 0; if (sf & 1) libflags |= HWLOC_TOPOLOGY_EXPORT_SYNTHETIC_FLAG_NO_EXTENDED_TYPES; if (sf & 2) libflags |= HWLOC_TOPOLOGY_EXPORT_SYNTHETIC_FLAG_NO_ATTRS; if (sf & 4) libflags |= HWLOC_TOPOLOGY_EXPORT_SYNTHETIC_FLAG_V1;
     if (sf) { a.push_back("--export-synthetic-flags"); a.push_back(strf("%lu", libflags)); }
     c.descf("\n lstopo-no-graphics --of synthetic --export-synthetic-flags %lu", libflags); Run r = run_tool(c, "lstopo-no-graphics", a);
-    char buf[8192]; int l = hwloc_topology_export_synthetic(t, buf, sizeof buf, libflags);
+    static char buf[65536]; int l = hwloc_topology_export_synthetic(t, buf, sizeof buf, libflags); if (l >= 1000) c.cls(l >= 1024 ? "lstopo:synthetic>=1024-chars" : "lstopo:synthetic-1000..1023-chars");
     if (l < 0) { CHECK(c, r.rc != 0, "lstopo_synthetic", "the library refuses to export this topology as synthetic but lstopo exited with 0 and printed [%s]", first_line(r.out).substr(0, 200).c_str()); c.cls("lstopo:synthetic-refused"); }
-    else { CHECK(c, r.rc == 0 && r.out == std::string(buf) + "\n", "lstopo_synthetic", "lstopo printed [%s] (exit %d), the library exports [%s]", first_line(r.out).substr(0, 300).c_str(), r.rc, buf); c.cls("lstopo:synthetic"); }
+    else { if (!(r.rc == 0 && r.out == std::string(buf) + "\n")) { size_t pp = 0; std::string e = std::string(buf) + "\n"; while (pp < r.out.size() && pp < e.size() && r.out[pp] == e[pp]) pp++; c.fail("lstopo_synthetic", "lstopo printed %zu bytes (exit %d), the library export has %zu; first difference at byte %zu: [%s] vs [%s]", r.out.size(), r.rc, e.size(), pp, qstr(r.out.substr(pp > 30 ? pp - 30 : 0, 80).c_str()).c_str(), qstr(e.substr(pp > 30 ? pp - 30 : 0, 80).c_str()).c_str()); } c.checks();
+      // and it reloads to the same machine
+      if (!(libflags & HWLOC_TOPOLOGY_EXPORT_SYNTHETIC_FLAG_NO_ATTRS) && longsyn) { hwloc_topology_t q; hwloc_topology_init(&q); std::string sd = first_line(r.out); CHECK(c, hwloc_topology_set_synthetic(q, sd.c_str()) == 0 && hwloc_topology_load(q) == 0, "lstopo_synthetic_reload", "lstopo's synthetic output does not reload"); for (unsigned i = 0; i < (unsigned)hwloc_get_nbobjs_by_type(t, HWLOC_OBJ_PU); i++) CHECK(c, hwloc_get_obj_by_type(q, HWLOC_OBJ_PU, i)->os_index == hwloc_get_obj_by_type(t, HWLOC_OBJ_PU, i)->os_index, "lstopo_synthetic_reload", "PU L#%u differs after reloading lstopo's synthetic output", i); hwloc_topology_destroy(q); }
+      c.cls("lstopo:synthetic"); }
   }
   c.nontrivial(); hwloc_topology_destroy(t);
 }
